@@ -217,6 +217,24 @@ struct R
     }
 };
 
+// rule functor with state of its own (an id allocator, a node counter): logs "s<rule>:<n-th call of this functor object>;" before the usual record;
+// the object stored in the parser is the one that has to be called, every time
+template<int Rule, class T = V>
+struct RS
+{
+    mutable long calls = 0;
+    template<class... A>
+    T operator()(A&&... a) const
+    {
+        S.ev += "s"; put(Rule); S.ev += ":"; put(++calls); S.ev += ";";
+        S.ev += "r"; put(Rule); S.ev += "(";
+        (describe(std::forward<A>(a)), ...);
+        T v = make_value<T>();
+        S.ev += ")="; put(value_id(v)); S.ev += ";";
+        return v;
+    }
+};
+
 // rule functor returning a non-const lvalue reference to an object that outlives the call (an entry of a table the functor owns): the
 // library has to copy from it; logs "r<rule>(args)=<id of the persistent object>;" (a negative id: somebody moved from the table entry)
 template<int Rule, class T = V>
@@ -278,8 +296,13 @@ struct X
         S.ev += (ctx_expected ? (addr == ctx_expected ? "=" : "!") : (addr == ctx_first_seen ? "~" : "!"));
         S.ev += std::is_const_v<CT> ? "c" : "m";
         S.ev += std::is_lvalue_reference_v<C> ? "L" : "R";     // value category the context arrives with
+        // scalar contexts (a counter passed as long&, a pointer to the real context) are contexts too
+        if constexpr (std::is_arithmetic_v<std::remove_cv_t<CT>>) { S.ev += "#"; put(long(ctx)); if constexpr (!std::is_const_v<CT>) ++ctx; }
+        else if constexpr (std::is_pointer_v<std::remove_cv_t<CT>>) { S.ev += "#"; put(ctx->counter); ++ctx->counter; }
+        else {
         S.ev += "#"; put(ctx.counter);
         if constexpr (!std::is_const_v<CT>) ++ctx.counter;
+        }
         S.ev += "](";
         (describe(std::forward<A>(a)), ...);
         T v = make_value<T>();
@@ -302,8 +325,13 @@ struct XN
         S.ev += (ctx_expected ? (addr == ctx_expected ? "=" : "!") : (addr == ctx_first_seen ? "~" : "!"));
         S.ev += std::is_const_v<CT> ? "c" : "m";
         S.ev += std::is_lvalue_reference_v<C> ? "L" : "R";     // value category the context arrives with
+        // scalar contexts (a counter passed as long&, a pointer to the real context) are contexts too
+        if constexpr (std::is_arithmetic_v<std::remove_cv_t<CT>>) { S.ev += "#"; put(long(ctx)); if constexpr (!std::is_const_v<CT>) ++ctx; }
+        else if constexpr (std::is_pointer_v<std::remove_cv_t<CT>>) { S.ev += "#"; put(ctx->counter); ++ctx->counter; }
+        else {
         S.ev += "#"; put(ctx.counter);
         if constexpr (!std::is_const_v<CT>) ++ctx.counter;
+        }
         S.ev += "](";
         (describe(std::forward<A>(a)), ...);
         S.ev += ")=N;";
